@@ -144,7 +144,8 @@ def run_native(binpath, project_dir, args, schedule=None, timeout=60, extra_env=
         env.update(extra_env)
     try:
         try:
-            r = subprocess.run(['timeout', '-k', '2', str(timeout), binpath, '-p', project_dir] + list(args), env=env, capture_output=True, text=True)
+            pre = ['taskset', '-c', env.pop('ZX_TASKSET')] if env.get('ZX_TASKSET') else []
+            r = subprocess.run(pre + ['timeout', '-k', '2', str(timeout), binpath, '-p', project_dir] + list(args), env=env, capture_output=True, text=True)
             rc, out, err = r.returncode, r.stdout, r.stderr
         except Exception as e:   # pragma: no cover
             rc, out, err = -1, '', str(e)
